@@ -72,6 +72,7 @@ void NTT_Goldilocks::NTT_iters(Goldilocks::Element *dst, Goldilocks::Element *sr
         u_int64_t batchSize = 1 << sInc;
         u_int64_t nBatches = size / batchSize;
 
+        GOLDILOCKS_VERIF_EVENT("ntt_pass", s, sInc, nBatches, (s + maxBatchPow <= domainPow || !inverse) ? 0 : (extend ? 2 : 1));
         int chunk1 = nBatches / nThreads;
         if (chunk1 == 0)
         {
@@ -153,6 +154,7 @@ void NTT_Goldilocks::NTT_iters(Goldilocks::Element *dst, Goldilocks::Element *sr
         a2 = a;
         a = tmp;
     }
+    GOLDILOCKS_VERIF_EVENT("ntt_land", a == dst_, size, nphase, domainPow);
     if (a != dst_)
     {
         if (size > 1)
@@ -247,6 +249,7 @@ void NTT_Goldilocks::NTT(Goldilocks::Element *dst, Goldilocks::Element *src, u_i
 void NTT_Goldilocks::reversePermutation(Goldilocks::Element *dst, Goldilocks::Element *src, u_int64_t size, u_int64_t offset_cols, u_int64_t ncols, u_int64_t ncols_all)
 {
     uint32_t domainSize = log2(size);
+    GOLDILOCKS_VERIF_EVENT("revperm", (dst != src ? 0 : 2) + (extension <= 1 ? 0 : 1), size, ncols, (u_int64_t)extension);
     if (dst != src)
     {
         if (extension <= 1)
@@ -376,6 +379,7 @@ void NTT_Goldilocks::extendPol(Goldilocks::Element *output, Goldilocks::Element 
         tmp = buffer;
     }
     // TODO: Pre-compute r
+    GOLDILOCKS_VERIF_EVENT("extendPol", N, N_Extended, ncols, (r == NULL || rSize != N));
     if (r == NULL || rSize != N)
     {
         computeR(N);
